@@ -94,13 +94,6 @@ theorem C13_all_dtypes_registered :
       ∃ v, dtypeToVtk d = some v ∧ vtkToDtype v = some d := by
   decide
 
-/-- an array the round trip is claimed for: well-formed (`WArr.wf`: registered item size, `rows·∏tail` items, every
-    bit pattern fits the item size), one of the ten numeric dtypes, fewer than 2^64 payload bytes -/
-structure ArrOk (a : WArr) : Prop where
-  wf : a.wf = true
-  small : a.items.length * dtypeSize a.dt < 256 ^ 8
-  reg : a.dt ∈ ["int8", "int16", "int32", "int64", "uint8", "uint16", "uint32", "uint64", "float32", "float64"]
-
 /-- **C13 (every array of the written file, partial composition).**  Whenever the writer produces a file for
     field data `F` (any number of point fields of any registered dtypes and shapes, any points, at least one cell),
     then in that file
